@@ -28,6 +28,7 @@ func init() {
 			{ID: "R10d", Floor: 2, Doc: "reader windows from header fields", Run: ruleR10d},
 			{ID: "R10f", Floor: 2, Doc: "the index a wrap writes records true section offsets (= R03b)", Run: ruleR03b},
 			{ID: "R10g", Floor: 10, Doc: "no new dropped error in the container transforms (a failed write must fail the transform) (= R16h)", Run: ruleR16h},
+			{ID: "R10h", Floor: 5, Doc: "`car index`, the CLI wrap, re-emits the payload with offsets that advance by every section copied (= R19d)", Run: ruleR19d},
 		},
 	})
 }
